@@ -267,6 +267,7 @@ structure SeqInv (w : World) (m : SeqMon) : Prop where
   proto : m.newProto = w.newProto
   server : m.server = w.server
   psize : m.pageSize = w.pageSize
+  serverB : m.serverB = w.serverB
   nodup : (toolNames w.server).Nodup
   curPage : ∀ pg ∈ w.cache, pg.cur = true → pg.tools = (serverPage w.server w.pageSize pg.key).1
   listed : ∀ n ∈ m.listed, FirstCur n w.cache
@@ -279,7 +280,7 @@ structure SeqInv (w : World) (m : SeqMon) : Prop where
   pendFresh : m.fresh = true → ∀ p, w.pend = some p → p.gen = w.gen → p.cur = true
 
 theorem seqInv_init (cfg : SeqCfg) : SeqInv (World.init cfg) (SeqMon.init cfg) :=
-  { proto := rfl, server := rfl, psize := rfl, nodup := List.nodup_nil, curPage := fun _ h => (by cases h),
+  { proto := rfl, server := rfl, psize := rfl, serverB := rfl, nodup := List.nodup_nil, curPage := fun _ h => (by cases h),
     listed := fun _ h => (by cases h), fresh := fun _ _ h => (by cases h), pendEq := rfl,
     pendLe := fun _ h => (by cases h), pendCur := fun _ h => (by cases h), pendFresh := fun _ _ h => (by cases h) }
 
@@ -324,7 +325,7 @@ theorem seqInv_put {c : B64} {w : World} {m : SeqMon} (h : SeqInv w m) (hp : w.n
   rw [show (putPage w now k).2 = .listed false (serverPage w.server w.pageSize k).1 (serverPage w.server w.pageSize k).2 from rfl,
     seqMonStep_list_fetched c m k _ _ hmp]
   simp only [putPage]
-  refine { proto := h.proto, server := h.server, psize := h.psize, nodup := h.nodup, curPage := ?_, listed := ?_, fresh := ?_,
+  refine { proto := h.proto, server := h.server, psize := h.psize, serverB := h.serverB, nodup := h.nodup, curPage := ?_, listed := ?_, fresh := ?_,
            pendEq := h.pendEq, pendLe := h.pendLe, pendCur := h.pendCur, pendFresh := h.pendFresh }
   · intro pg hpg hcur
     rcases List.mem_cons.mp hpg with he | hr
@@ -346,7 +347,7 @@ theorem stalePend_map (po : Option Pending) (g : Nat) :
 theorem seqInv_change {w : World} {m : SeqMon} (h : SeqInv w m) (ts : Tools) (hnd : (toolNames ts).Nodup) :
     SeqInv { w with server := ts, cache := staleAll w.cache, pend := stalePend w.pend }
       { m with server := ts, listed := [], fresh := false, pend := m.pend.map (fun x => (true, x.2)) } :=
-  { proto := h.proto, server := rfl, psize := h.psize, nodup := hnd,
+  { proto := h.proto, server := rfl, psize := h.psize, serverB := h.serverB, nodup := hnd,
     curPage := fun pg hpg hcur => (by rw [mem_staleAll hpg] at hcur; cases hcur),
     listed := fun _ hn => (by cases hn), fresh := fun hf => (by cases hf),
     pendEq := (by simp only [h.pendEq]; exact (stalePend_map w.pend w.gen).symm),
@@ -415,7 +416,7 @@ theorem seqInv_step (c : B64) {w : World} {m : SeqMon} (h : SeqInv w m) (now : N
   | ttl v => exact { h with }
   | adv => exact h
   | notified =>
-    refine { proto := h.proto, server := h.server, psize := h.psize, nodup := h.nodup, curPage := fun _ hpg => (by cases hpg),
+    refine { proto := h.proto, server := h.server, psize := h.psize, serverB := h.serverB, nodup := h.nodup, curPage := fun _ hpg => (by cases hpg),
              listed := fun _ hn => (by cases hn), fresh := fun _ _ hpg => (by cases hpg), pendEq := ?_, pendLe := ?_,
              pendCur := h.pendCur, pendFresh := ?_ }
     · simp only [stepW, seqMonStep, h.pendEq]
@@ -454,7 +455,7 @@ theorem seqInv_step (c : B64) {w : World} {m : SeqMon} (h : SeqInv w m) (now : N
       intro hw
       have hmpend : m.pend = none := by rw [h.pendEq, hw]; rfl
       simp only [sendList, seqMonStep, hmpend]
-      exact { proto := h.proto, server := h.server, psize := h.psize, nodup := h.nodup, curPage := h.curPage,
+      exact { proto := h.proto, server := h.server, psize := h.psize, serverB := h.serverB, nodup := h.nodup, curPage := h.curPage,
               listed := h.listed, fresh := h.fresh, pendEq := (by simp),
               pendLe := (by intro p hp; simp only [Option.some.injEq] at hp; subst hp; exact Nat.le_refl _),
               pendCur := (by intro p hp _; simp only [Option.some.injEq] at hp; subst hp; rfl),
@@ -484,7 +485,7 @@ theorem seqInv_step (c : B64) {w : World} {m : SeqMon} (h : SeqInv w m) (now : N
       | false =>
         have hmp : m.newProto = false := by rw [h.proto, hp]
         simp only [hmp, Bool.not_false, if_true, Bool.false_and, Bool.false_eq_true, if_false]
-        exact { proto := (by simp [hmp]), server := h.server, psize := h.psize, nodup := h.nodup, curPage := h.curPage,
+        exact { proto := (by simp [hmp]), server := h.server, psize := h.psize, serverB := h.serverB, nodup := h.nodup, curPage := h.curPage,
                 listed := h.listed, fresh := h.fresh, pendEq := rfl, pendLe := fun _ hq => (by cases hq),
                 pendCur := fun _ hq => (by cases hq), pendFresh := fun _ _ hq => (by cases hq) }
       | true =>
@@ -497,7 +498,7 @@ theorem seqInv_step (c : B64) {w : World} {m : SeqMon} (h : SeqInv w m) (now : N
           cases hc : p.cur with
           | false =>
             simp only [Bool.not_false, if_true]
-            refine { proto := (by simp [hmp]), server := h.server, psize := h.psize, nodup := h.nodup, curPage := ?_,
+            refine { proto := (by simp [hmp]), server := h.server, psize := h.psize, serverB := h.serverB, nodup := h.nodup, curPage := ?_,
                      listed := fun _ hn => (by cases hn), fresh := ?_, pendEq := rfl, pendLe := fun _ hq => (by cases hq),
                      pendCur := fun _ hq => (by cases hq), pendFresh := fun _ _ hq => (by cases hq) }
             · intro pg hpg hcur
@@ -512,7 +513,7 @@ theorem seqInv_step (c : B64) {w : World} {m : SeqMon} (h : SeqInv w m) (now : N
           | true =>
             have hpt := h.pendCur p hw hc
             simp only [Bool.not_true, Bool.false_eq_true, if_false]
-            refine { proto := (by simp [hmp]), server := h.server, psize := h.psize, nodup := h.nodup, curPage := ?_,
+            refine { proto := (by simp [hmp]), server := h.server, psize := h.psize, serverB := h.serverB, nodup := h.nodup, curPage := ?_,
                      listed := ?_, fresh := ?_, pendEq := rfl, pendLe := fun _ hq => (by cases hq),
                      pendCur := fun _ hq => (by cases hq), pendFresh := fun _ _ hq => (by cases hq) }
             · intro pg hpg hcur
@@ -530,11 +531,14 @@ theorem seqInv_step (c : B64) {w : World} {m : SeqMon} (h : SeqInv w m) (now : N
         · have h1 : (p.gen != w.gen) = true := by simp [hg]
           have h2 : (p.gen == w.gen) = false := by simp [hg]
           simp only [h1, h2, Bool.false_eq_true, if_false, if_true]
-          exact { proto := (by simp [hmp]), server := h.server, psize := h.psize, nodup := h.nodup, curPage := h.curPage,
+          exact { proto := (by simp [hmp]), server := h.server, psize := h.psize, serverB := h.serverB, nodup := h.nodup, curPage := h.curPage,
                   listed := h.listed, fresh := h.fresh, pendEq := rfl, pendLe := fun _ hq => (by cases hq),
                   pendCur := fun _ hq => (by cases hq), pendFresh := fun _ _ hq => (by cases hq) }
   | look n => exact h
   | call n a => exact h
+  | setToolB n p => exact { h with serverB := (by simp [stepW, seqMonStep, h.serverB]) }
+  | delToolB n => exact { h with serverB := (by simp [stepW, seqMonStep, h.serverB]) }
+  | callB n a => exact h
 
 /-! ## runs -/
 
@@ -592,6 +596,26 @@ theorem legacy_call_accepted (c : B64) (w : World) (hp : w.newProto = false) {n 
     (hs : toolDef w.server n = some ps) (a : Args) : callModel c w n a = ([], .okSame) := by
   unfold callModel callWith
   simp [hp, hs]
+
+/-- **Two servers behind one handler.**  A call that `getServer` routes to the handler's second server, by a client that
+has just listed THAT server's tools, carries exactly the headers that server's definition demands and goes through — for
+every world: whatever the first server has registered under the same name (other annotations, none), whatever was listed,
+cached or called before.  (Seeded change C12-m16, second form: bindings cached per tool NAME on the handler.) -/
+theorem other_server_call_agrees (c : B64) (hc : c.Lawful) (w : World) (hp : w.newProto = true) {n : Bytes} {ps : Props}
+    (hs : toolDef w.serverB n = some ps) (a : Args) (hv : validateAnnotations ps = true) (ha : ArgsPrim ps a) :
+    callModelB c w n a = (generateParamHeaders c ps a, .okSame) := by
+  unfold callModelB
+  rw [hs]
+  exact callWith_own_def c hc { w with server := w.serverB } hp hs a hv ha
+
+/-- … along every run: the answer depends on the second server's table alone. -/
+theorem two_servers_agree_over_time (c : B64) (hc : c.Lawful) (cfg : SeqCfg) (ops : List (Nat × SeqOp))
+    (n : Bytes) (ps : Props) (a : Args)
+    (hp : (runSeq c (World.init cfg) (SeqMon.init cfg) ops).1.newProto = true)
+    (hs : toolDef (runSeq c (World.init cfg) (SeqMon.init cfg) ops).1.serverB n = some ps)
+    (hv : validateAnnotations ps = true) (ha : ArgsPrim ps a) :
+    callModelB c (runSeq c (World.init cfg) (SeqMon.init cfg) ops).1 n a = (generateParamHeaders c ps a, .okSame) :=
+  other_server_call_agrees c hc _ hp hs a hv ha
 
 /-- **list_changed beats the cache, in-flight responses included.**  For EVERY list of operations with arbitrary clocks —
 listings in flight (`listSend` … `listRecv`) overtaken by changes of the server's tools, by notifications and by other
@@ -691,6 +715,15 @@ theorem overtaken_without_notification_forgets : wA ∉ (finalM wCfg opsOvertake
     wA ∈ (finalM wCfg (opsOvertakenQuiet.take 5)).listed ∧
     clientLookup (finalW wCfg opsOvertakenQuiet) wA = some wPlain ∧
     callModel idCodec (finalW wCfg opsOvertakenQuiet) wA wArgs = ([], .notOk (some (-32020)) true) := by decide
+
+/-- The two-server sequence of C12-m16: tool `a` of the first server mirrors `region`, it is listed and called; the second
+server's `a` has no annotation: the call routed to it carries no header and goes through (and vice versa). -/
+def opsTwoServers : List (Nat × SeqOp) :=
+  [(0, .setTool wA wProps), (0, .setToolB wA wPlain), (0, .list []), (0, .call wA wArgs)]
+theorem two_servers_same_name : callModel idCodec (finalW wCfg opsTwoServers) wA wArgs = (wHdrs, .okSame) ∧
+    callModelB idCodec (finalW wCfg opsTwoServers) wA wArgs = ([], .okSame) ∧
+    callModelB idCodec { finalW wCfg opsTwoServers with serverB := [(wA, wProps)], server := [(wA, wPlain)] } wA wArgs =
+      (wHdrs, .okSame) := by decide
 
 /-- Never listed: the client sends no header, the server (which knows its tool) demands one. -/
 def opsNever : List (Nat × SeqOp) := [(0, .setTool wA wProps)]
